@@ -119,11 +119,16 @@ class Ctx:
     def nontriv(self, key):
         self.nontrivial.add(hash(key))
 
-    def sample(self, obj, cap=10):
-        k = self.counters["_samples_seen"]
-        self.counters["_samples_seen"] += 1
-        # deterministic thinning: keep the first few, then geometrically spaced ones
-        if len(self.samples) < cap and (k < 4 or (k & (k - 1)) == 0):
+    def sample(self, obj, cap=10, group=None):
+        """Keep a few actual cases for the evidence file (deterministic thinning, per group)."""
+        if group is None and isinstance(obj, dict):
+            group = obj.get("sub", "")
+        group = group or ""
+        k = self.counters["_samples_seen:" + group]
+        self.counters["_samples_seen:" + group] += 1
+        have = self.counters["_samples_kept:" + group]
+        if have < cap and (k < 3 or (k & (k - 1)) == 0):
+            self.counters["_samples_kept:" + group] += 1
             self.samples.append(jsonable(obj))
 
     # ---- failures
@@ -355,7 +360,7 @@ def main(argv=None):
             counters.update(r["counters"])
             nontrivial |= r["nontrivial"]
             for s in r["samples"]:
-                if len(samples) < 16:
+                if len(samples) < 24:
                     samples.append(s)
             known_hits.update(r["known_hits"])
             other.update(r["other_buckets"])
